@@ -16,6 +16,7 @@ from typing import Any
 
 from pydantic import BaseModel
 
+from .. import c21_sched as sched
 from ..boot import VERIF
 from ..gen import sqlite_conn as gen
 from ..runner import Divergence, Driver, Env, Outcome, Violation, diff_streams
@@ -33,6 +34,10 @@ THEOREMS = [
     "C21_refuted_before_repair",
     "C21_single_uses_one_connection",
     "C21_percall_no_leak",
+    "C21_lock_per_store",
+    "C21_locks_modes_agree",
+    "C21_other_store_never_waits",
+    "C21_shared_lock_refutes",
 ]
 EXPLANATION = (
     "Lean model WfModel/SqliteConn.lean: the store as a resource-handling state machine. Database content is abstract; what "
@@ -56,7 +61,19 @@ EXPLANATION = (
     "pending/committed agreement) are diffed against what the two real stores did; sections reached by an operation are checked "
     "against the static call graph. Monitors (S): results compared op by op, final dump of all tables, closed shared connection "
     "(classified by the section that closed it), leaked per-call connections, uncommitted data left on the shared connection, "
-    "second connection opened in single mode; a subscriber/appender scenario under the virtual-time loop."
+    "second connection opened in single mode; a subscriber/appender scenario under the virtual-time loop. "
+    "Locks: the model has the lock layer of the state stores too (WfModel/SqliteConn.lean, `lockOf`/`lockStep`/`runLocks`: "
+    "asyncio.Lock discipline over a map store object -> lock); the generated flag `lockPerStore` says that every locking "
+    "section of SqliteStateStore takes one lock the object created for itself; C21_locks_modes_agree: every schedule of lock "
+    "requests/releases is answered the same whichever objects hold the shared connection; C21_other_store_never_waits; the "
+    "converse C21_shared_lock_refutes. Schedules (harness/c21_sched.py): tasks that are programs over several state-store "
+    "objects of one workflow store (other runs, second object of a run) and over the workflow store, with edit_state bodies that "
+    "work on other stores, wait for asyncio.Events other tasks set after their own write, yield or fail; real tasks on the "
+    "real stores under the scripted scheduler (harness/sloop.py), same schedule in both modes until quiescence. S: same tasks "
+    "finished, same per-task results, same final tables; a task blocked at quiescence in one mode only is reported with the "
+    "operation it is blocked in and the holder of the lock it waits for; hand-computed expectations on the corpus cases in "
+    "both modes. K: the lock requests/releases observed through a reporting asyncio.Lock subclass (granted at once / queued / "
+    "handed to which waiter) are diffed against the model's answers for both modes."
 )
 ASSUMPTIONS = [
     "SQLite itself: a statement that fails changes nothing; a new connection sees exactly the committed content; closing a "
@@ -76,12 +93,20 @@ ASSUMPTIONS = [
     "single_connection=True (OperationalError: unable to open database file) -- observed, outside the property",
     "statement semantics is an oracle in the model; equality of results is checked on the real stores only for generated histories",
     "sections are atomic (no await inside a section: checked by the extractor only in so far as the with-blocks contain no await)",
+    "lock layer: what tasks do between their lock requests and releases is abstract in the model (any list of lock actions); "
+    "asyncio.Lock itself (not re-entrant, FIFO hand-over) is modelled, and compared with the real lock on every generated "
+    "schedule; `lockPerStore` is recognised from the source shape (one attribute of self, a cached_property returning a new "
+    "asyncio.Lock() or assigned so in __init__) -- any other shape fails C21_lock_per_store rather than being interpreted",
+    "schedules are compared under the scripted scheduler (single thread, one await-free section at a time, no timers): "
+    "subscribe_events (polling with timeouts) is exercised only in the virtual-time scenario",
 ]
 TRUSTED_EXTRA = [
     "harness/gen/sqlite_conn.py (symbolic execution of the store methods into the lifecycle table)",
     "tracing subclass of sqlite3.Connection/Cursor installed through a patched sqlite3.connect; wrappers around _connect and the section functions",
     "the tick page size of stream_ticks is lowered to 3 during the run so that paging (several acquisitions in one call) is exercised",
     "datetime.now in abstract_workflow_store is frozen per operation so both stores receive the same timestamps",
+    "harness/sloop.py (scripted scheduler over asyncio.BaseEventLoop) and harness/c21_sched.py; during a scheduled scenario "
+    "asyncio.Lock is replaced by a subclass that reports request/grant/release and otherwise defers to asyncio.Lock",
 ]
 
 WS_FILE = "sqlite_workflow_store.py"
@@ -1083,7 +1108,7 @@ def table_line(table: dict) -> str:
     inst = {n for o in table["ops"] for n in o["secs"]}
     oneconn = all(s["qual"] not in inst or s["acquire"] == "provider" for s in table["secs"])
     return (f"ok={int(ok)} noleak={int(noleak)} oneconn={int(oneconn)} secs={len(table['secs'])} ops={len(table['ops'])} "
-            f"unknowns={table['unknowns']}")
+            f"unknowns={table['unknowns']} locks={int(bool(fl.get('lockPerStore')))}")
 
 
 def strip_model(line: str) -> str:
@@ -1157,6 +1182,81 @@ def concurrent_scenario(rng: Any, tmp: str, idx: int, out: Outcome) -> list[Viol
 
 
 # --------------------------------------------------------------------------
+# schedules over several state stores (S + K); see harness/c21_sched.py
+
+SCHED_CORPUS: list[dict] = [
+    {"label": "edit_state of run r0 open while its body writes and reads run r1 (a step driving a child run)",
+     "sched": {"stores": ["r0", "r1"], "setup": [["set", 0, "warm", 1], ["set", 1, "warm", 2]],
+               "tasks": [[["edit", 0, [["mut", "phase", "editing"], ["set", 1, "child_result", 41], ["get", 1, "child_result"],
+                                       ["mut", "seen_child", 41]]], ["getstate", 0], ["getstate", 1]]],
+               "schedule": [],
+               "expect": {"all_done": True,
+                          "states": {"r0": {"warm": 1, "phase": "editing", "seen_child": 41}, "r1": {"warm": 2, "child_result": 41}}}}},
+    {"label": "second store object of the same run written from inside the open block of the first: the block's copy wins",
+     "sched": {"stores": ["r0", "r0"], "setup": [["set", 0, "warm", 1]],
+               "tasks": [[["edit", 0, [["mut", "a", 1], ["set", 1, "b", 2], ["clear", 1], ["edit", 1, [["mut", "c", 3]]]]],
+                          ["getstate", 1]]],
+               "schedule": [],
+               "expect": {"all_done": True, "states": {"r0": {"warm": 1, "a": 1}}}}},
+    {"label": "run r0's block stays open until run r1 has written (order fixed by events), two rounds, third task on r2",
+     "sched": {"stores": ["r0", "r1", "r2"], "setup": [],
+               "tasks": [[["edit", 0, [["mut", "round", "open"], ["signal", "a0"], ["wait", "b0"], ["mut", "round", "after-b0"],
+                                       ["signal", "a1"], ["wait", "b1"], ["mut", "round", "closed-after-b"]]], ["getstate", 0]],
+                         [["wait", "a0"], ["set", 1, "w", "first"], ["signal", "b0"], ["wait", "a1"], ["setstate", 1, {"w2": 2}],
+                          ["clear", 2], ["edit", 1, [["mut", "w3", 3]]], ["signal", "b1"], ["getstate", 1]],
+                         [["set", 2, "z", 1], ["ws", {"op": "ws.append_tick", "run": "r2", "data": {"n": 1}}], ["getstate", 2]]],
+               "schedule": [2, 0, 1, 1, 0, 2, 1, 0, 2, 1, 1, 0],
+               "expect": {"all_done": True,
+                          "states": {"r0": {"round": "closed-after-b"}, "r1": {"w2": 2, "w3": 3}}}}},
+    {"label": "two levels: r0's block opens r1's block, which writes r2; a queued writer on r0 gets the lock at the hand-over",
+     "sched": {"stores": ["r0", "r1", "r2"], "setup": [],
+               "tasks": [[["edit", 0, [["mut", "k", 0], ["yield"], ["edit", 1, [["mut", "k", 1], ["set", 2, "k", 2], ["yield"]]],
+                                       ["mut", "done", True]]]],
+                         [["set", 0, "late", 1], ["getstate", 0]]],
+               "schedule": [0, 1, 1, 0, 0, 1, 0, 1],
+               "expect": {"all_done": True, "states": {"r0": {"k": 0, "done": True, "late": 1}, "r1": {"k": 1}, "r2": {"k": 2}}}}},
+    {"label": "a block that re-enters its own store object waits for itself in BOTH modes (not a difference)",
+     "sched": {"stores": ["r0", "r1"], "setup": [],
+               "tasks": [[["edit", 0, [["mut", "a", 1], ["set", 0, "b", 2]]]], [["set", 1, "x", 1], ["getstate", 1]]],
+               "schedule": [0, 1, 0, 1]}},
+]
+
+
+def sched_case(sc_case: dict, tmp: str, idx: int, out: Outcome, lines: list[str], impl: list[str]) -> list[Violation]:
+    sc = sc_case["sched"]
+    payload = {"label": sc_case.get("label", "generated schedule"), "sched": sc}
+    obs = sched.run_scenario(sc, tmp, idx)
+    res = []
+    seen = set()
+    for sig, what in sched.compare(sc, obs) + sched.check_expect(sc, obs):
+        if sig not in seen:
+            seen.add(sig)
+            res.append(Violation(sig, what, payload))
+    l, i = sched.lock_lines(sc, obs)
+    lines += l
+    impl += i
+    rp = obs["runs"]["percall"]
+    out.evaluations += 1
+    out.count("schedule:" + sc.get("family", "corpus"))
+    out.count("schedule-outcome:" + ("all-finish" if not rp.blocked else "blocks-in-both-modes" if obs["runs"]["single"].blocked
+                                      else "blocks-per-call-only"))
+    nested_other = 0
+    held: dict[int, tuple[int, int]] = {}
+    for e in rp.log:
+        if e["k"] == "got":
+            held[e["lock"]] = (e["task"], e["obj"])
+        elif e["k"] == "rel":
+            held.pop(e["lock"], None)
+        elif e["k"] == "req" and any(t == e["task"] and o != e["obj"] for t, o in held.values()):
+            nested_other += 1
+    waits = sum(1 for e in rp.lock_events() if e["ans"] == "wait")
+    out.count("schedule-lock-requests", sum(1 for e in rp.log if e["k"] == "req"))
+    out.count("schedule-lock-waits", waits)
+    if nested_other:
+        out.count("schedule:lock-taken-inside-an-open-block-of-another-store")
+    if len(rp.trace) > 1:
+        out.nontrivial(json.dumps(sc, sort_keys=True, default=repr))
+    return res
 
 
 def run(env: Env) -> Outcome:
@@ -1168,7 +1268,11 @@ def run(env: Env) -> Outcome:
                 "of state stores (plain, typed, seeded from another run or from an in-memory snapshot), ~12% raising operations "
                 "(NULL run id, unbindable parameter, unserialisable value, empty/over-long/missing path, type mismatch, failing "
                 "edit body, missing store); each operation runs on a single-connection and a per-call store; non-trivial = the "
-                "operation executed at least one section; distinct by history")
+                "operation executed at least one section; distinct by history. Plus schedules: 1-4 real tasks over 2-4 "
+                "state-store objects of one workflow store (1-3 runs, so also several objects of one run) and workflow-store "
+                "operations, edit_state bodies that work on other stores up to two levels deep / wait for events set by other "
+                "tasks after their writes / yield / fail, random schedules run to quiescence under the scripted scheduler, the "
+                "same schedule in both connection modes; non-trivial = more than one scheduling decision")
     notes: list[str] = []
     table = gen.extract(notes)
     out.notes += notes
@@ -1186,12 +1290,19 @@ def run(env: Env) -> Outcome:
         rc = env.replay["payload"]["case"]
         if isinstance(rc, dict) and "ops" in rc and "concurrent" not in rc:
             cases.append(rc)
+    sched_cases: list[dict] = []
+    if env.replay is not None:
+        rc = env.replay["payload"]["case"]
+        if isinstance(rc, dict) and "sched" in rc:
+            sched_cases.append(rc)
+    sched_cases += SCHED_CORPUS
     cases += CORPUS
     cdir = os.path.join(VERIF, "harness", "corpus")
     for fn in sorted(os.listdir(cdir)) if os.path.isdir(cdir) else []:
         if fn.startswith("c21_") and fn.endswith(".json"):
             try:
-                cases.append(json.load(open(os.path.join(cdir, fn)))["case"])
+                cc = json.load(open(os.path.join(cdir, fn)))["case"]
+                (sched_cases if "sched" in cc else cases).append(cc)
             except (OSError, ValueError, KeyError) as e:
                 out.notes.append(f"corpus file {fn} unreadable: {e!r}")
     ncases = env.budget(14, 300)
@@ -1226,10 +1337,17 @@ def run(env: Env) -> Outcome:
                 out.violations += concurrent_scenario(env.rng, tmp, j, out)
             if scen_rc is not None and isinstance(scen_rc, dict) and "concurrent" in scen_rc:
                 out.notes.append("replay of a concurrent scenario: re-drawn from the seed (parameters in the replay file)")
+            # schedules over several state stores: corpus first, then generated (drawn after everything else, so the
+            # histories above are the same as before for a given seed)
+            for _ in range(env.budget(90, 1500)):
+                sched_cases.append({"label": "generated schedule", "sched": sched.gen_scenario(env.rng)})
+            for j, sc_case in enumerate(sched_cases):
+                out.violations += sched_case(sc_case, tmp, j, out, lines, impl)
     finally:
         shutil.rmtree(tmp, ignore_errors=True)
     # malformed lines
-    bad = ["sec|x|ws.query|1|0|0", "sec|-|ws.query|2|0|0", "new|", "nonsense", "sec|-|ws.query|1|0"]
+    bad = ["sec|x|ws.query|1|0|0", "sec|-|ws.query|2|0|0", "new|", "nonsense", "sec|-|ws.query|1|0", "lk|x|0|acq", "lk|0|0|take",
+           "lk|0|0"]
     lines += bad
     impl += ["bad-op"] * len(bad)
     try:
@@ -1238,7 +1356,7 @@ def run(env: Env) -> Outcome:
         out.divergences.append(Divergence("sqliteconn", 0, "<driver>", repr(e), ""))
         return out
     # harness-made lines (unlisted-op, unlisted-section, extra-sections) are answered `bad-op` by the driver: a divergence
-    out.traces_validated = sum(1 for l in lines if l.startswith("sec|") or l.startswith("new|") or l == "final")
+    out.traces_validated = sum(1 for l in lines if l.startswith("sec|") or l.startswith("new|") or l.startswith("lk|") or l == "final")
     out.disagreements_checked = len(lines)
     # `final`: the model's content is a version counter, so it can only promise agreement, not predict a difference
     # (a lingering uncommitted change may be overwritten later, a DELETE may match nothing): one-directional fields
